@@ -15,7 +15,7 @@ package seqio
 //@ spec opaque olen(n int) int = ite(n == 0, 0, opos(n-1) + 2)
 
 //@ func toOriginLength(length int) (r int)
-//@   prop C16 C07
+//@   prop C16 C07 C01
 //@   reveal opos olen
 //@   requires 0 <= length && length <= 1099511627776
 //@   ensures r == olen(length)
@@ -27,7 +27,7 @@ package seqio
 //@ axiom nresInverse: forall n: 0 <= n ==> nres(olen(n)) == n
 
 //@ func fromOriginLength(length int) (r int)
-//@   prop C16
+//@   prop C16 C01
 //@   reveal opos olen
 //@   requires 0 <= length && length <= 1099511627776
 //@   ensures forall n: 0 <= n && length == olen(n) ==> r == n
@@ -78,7 +78,7 @@ package seqio
 // dig9(v, k) (built in): byte k of v printed right-aligned in 9 columns ("%9d"), 0 <= v < 10^9.
 
 //@ func (o *Origin) Bytes() (r []byte)
-//@   prop C16 C11
+//@   prop C16 C11 C01
 //@   requires !isnil(o) && len(o.Buffer) <= 1099511627776
 //@   requires !o.Parsed ==> 0 <= nres(len(o.Buffer)) && len(o.Buffer) == olen(nres(len(o.Buffer)))
 //@   use olenZero(0)
@@ -107,7 +107,7 @@ package seqio
 //@   loop 2: decreases 60 - j
 
 //@ func (o Origin) Len() (n int)
-//@   prop C16
+//@   prop C16 C01
 //@   requires len(o.Buffer) <= 1099511627776
 //@   requires !o.Parsed ==> 0 <= nres(len(o.Buffer)) && len(o.Buffer) == olen(nres(len(o.Buffer)))
 //@   use olenZero(0)
@@ -118,7 +118,7 @@ package seqio
 // Round trip: formatting residues as a block and decoding the block gives the residues back,
 // and the length reported without decoding is the residue count.
 //@ func lemmaOriginRoundTrip(p []byte) (r []byte, n int)
-//@   prop C16
+//@   prop C16 C01
 //@   requires len(p) < 999999940
 //@   use olenBound(len(p))
 //@   ensures len(r) == len(p) && n == len(p)
@@ -185,7 +185,7 @@ func lemmaOriginRoundTrip(p []byte) ([]byte, int) {
 // The line-by-line reader: never indexes outside a line, and what it accepts and returns is a
 // layout block of the declared length (the same predicate the fast validator decides).
 //@ func slowGenBankOriginParser$1(state *pars.State, result *pars.Result) (err error)
-//@   prop C07 C16
+//@   prop C07 C16 C01
 //@   requires !isnil(state) && !isnil(result) && 0 <= length && length < 999999940
 //@   use olenZero(0)
 //@   use olenBound(length)
@@ -218,7 +218,7 @@ func lemmaOriginRoundTrip(p []byte) ([]byte, int) {
 // The ORIGIN field reader: fast path when the next olen(length) bytes validate, else line by
 // line; either way a record is accepted only with a layout block of the declared length.
 //@ func makeGenbankOriginParser$2(state *pars.State, result *pars.Result) (err error)
-//@   prop C07 C16
+//@   prop C07 C16 C01
 //@   requires !isnil(state) && !isnil(result) && !isnil(gb) && 0 <= length && length < 999999940
 //@   use olenBound(length)
 //@   ensures accepted: isnil(err) ==> !isnil(gb.Origin) && !gb.Origin.Parsed && len(gb.Origin.Buffer) == olen(length) &&
@@ -273,7 +273,7 @@ func lemmaOriginRoundTrip(p []byte) ([]byte, int) {
 
 // The fast validator accepts a block of the right length exactly when every byte is in place.
 //@ func validateOrigin(p []byte, length int, pos pars.Position) (err error)
-//@   prop C07 C16
+//@   prop C07 C16 C01
 //@   requires 0 <= length && length < 999999940 && len(p) == olen(length)
 //@   use olenZero(0)
 //@   ensures sound: isnil(err) ==> (forall b in 0..len(p): olayOK(p, length, b))
@@ -300,7 +300,7 @@ func lemmaOriginRoundTrip(p []byte) ([]byte, int) {
 
 // ... and it accepts every block of the right length in which every byte is in place.
 //@ func validateOrigin@valid(p []byte, length int, pos pars.Position) (err error)
-//@   prop C16
+//@   prop C16 C01
 //@   requires 0 <= length && length < 999999940 && len(p) == olen(length)
 //@   requires forall b in 0..len(p): olayOK(p, length, b)
 //@   use olenZero(0)
@@ -328,7 +328,7 @@ func lemmaOriginRoundTrip(p []byte) ([]byte, int) {
 //@   ite(isIdx(b), int(buf[b]) == idxVal(b), ite(isNl(b, n), buf[b] == '\n', ite(isSp(b, n), buf[b] == ' ', buf[b] == p[resIndex(b)])))
 
 //@ func NewOrigin(p []byte) (o *Origin)
-//@   prop C16 C11
+//@   prop C16 C11 C01
 //@   requires len(p) < 999999940
 //@   use olenZero(0)
 //@   use olenBound(len(p))
@@ -419,7 +419,7 @@ func lemmaOriginRoundTrip(p []byte) ([]byte, int) {
 // The text of an ORIGIN block: the buffer itself while it is still in layout form, the layout
 // of the residues once it has been decoded.
 //@ func (o Origin) String() (s string)
-//@   prop C16
+//@   prop C16 C01
 //@   requires o.Parsed ==> len(o.Buffer) < 999999940
 //@   ensures raw: !o.Parsed ==> len(s) == len(o.Buffer) && (forall k in 0..len(s): s[k] == o.Buffer[k])
 //@   ensures encoded: o.Parsed ==> len(s) == olen(len(o.Buffer))
@@ -428,7 +428,7 @@ func lemmaOriginRoundTrip(p []byte) ([]byte, int) {
 // The length of a GenBank record is the number of residues in its ORIGIN block, whatever the
 // other fields say (gts.Len relies on it: it prefers a sequence's own Len method).
 //@ func (gb GenBank) Len() (n int)
-//@   prop C02 C16 C11
+//@   prop C02 C16 C11 C01
 //@   requires !isnil(gb.Origin) && len(gb.Origin.Buffer) <= 1099511627776
 //@   requires !gb.Origin.Parsed ==> 0 <= nres(len(gb.Origin.Buffer)) && len(gb.Origin.Buffer) == olen(nres(len(gb.Origin.Buffer)))
 //@   ensures gb.Origin.Parsed ==> n == len(gb.Origin.Buffer)
@@ -525,7 +525,7 @@ func lemmaOriginRoundTrip(p []byte) ([]byte, int) {
 //@   assigns nothing
 
 //@ func (gb GenBank) Info() (info any)
-//@   prop C17
+//@   prop C17 C01
 //@   ensures is(info, GenBankFields) && info.(GenBankFields) == gb.Fields
 //@   assigns nothing
 
@@ -571,9 +571,36 @@ func lemmaOriginRoundTrip(p []byte) ([]byte, int) {
 //@   ensures t == FastaFile ==> name == "fasta"
 //@   assigns nothing
 //@ func (gb GenBank) Bytes() (p []byte)
-//@   prop C17
+//@   prop C17 C01
 //@   requires !isnil(gb.Origin) && len(gb.Origin.Buffer) <= 1099511627776
 //@   requires !gb.Origin.Parsed ==> 0 <= nres(len(gb.Origin.Buffer)) && len(gb.Origin.Buffer) == olen(nres(len(gb.Origin.Buffer)))
 //@   ensures old(gb.Origin.Parsed) ==> sameslice(p, old(gb.Origin.Buffer))
 //@   ensures !old(gb.Origin.Parsed) ==> len(p) == nres(old(len(gb.Origin.Buffer))) && (forall k in 0..len(p): p[k] == old(gb.Origin.Buffer[opos(k)]))
 //@   assigns gb.Origin
+
+// ---------------------------------------------------------------------------------------------
+// C01: GenBank write -> read.  The text of a record (GenBank.String, the table formatter) and
+// the field grammar are fmt/strings/go-wrap/go-pars code outside the verified subset; they are
+// exercised by /verif/bounded/genbank_bounded_test.go.  Under contract: which record is handed
+// to the formatter, that the one formatted string is what is written, and (shared with C16) the
+// ORIGIN block: NewOrigin/Origin.String lay the residues out, the reader accepts exactly a layout
+// block of the declared length, Origin.Bytes decodes it to the same residues, for all lengths.
+//@ func (gb GenBank) String() (s string)
+//@   trusted the record text is produced with fmt, strings and go-wrap (outside the subset; bounded stand-in); it only reads the record
+//@   assigns nothing
+//@ func (gb GenBank) WriteTo(w io.Writer) (n int64, err error)
+//@   prop C01
+//@   callpre String(self): self.Origin == gb.Origin && sameslice(self.Table, gb.Table) && self.Fields.Accession == gb.Fields.Accession && self.Fields.Version == gb.Fields.Version && self.Fields.LocusName == gb.Fields.LocusName && self.Fields.Region == gb.Fields.Region
+//@   callpre WriteString(w0, s0): w0 == w
+//@   assigns nothing
+// A GenBank is written as it is; any other sequence whose metadata is a GenBankFields value is
+// written as the record made of that metadata, its feature table and its residues laid out by
+// NewOrigin.
+//@ func (w GenBankWriter) WriteSeq(seq gts.Sequence) (n int, err error)
+//@   prop C01
+//@   requires is(seq, *GenBank) ==> !isnil(seq.(*GenBank))
+//@   requires !is(seq, GenBank) && !is(seq, *GenBank) ==> len(bytesOf(seq)) < 999999940
+//@   callpre WriteTo(self, w0): w0 == w.w && is(seq, GenBank) && self.Origin == seq.(GenBank).Origin && sameslice(self.Table, seq.(GenBank).Table) && self.Fields.Accession == seq.(GenBank).Fields.Accession && self.Fields.Region == seq.(GenBank).Fields.Region
+//@   callpre NewOrigin(p0): sameslice(p0, bytesOf(seq))
+//@   callpre WriteSeq(self, s0): self.w == w.w && is(s0, GenBank) && (is(seq, *GenBank) ==> s0.(GenBank).Origin == seq.(*GenBank).Origin && sameslice(s0.(GenBank).Table, seq.(*GenBank).Table)) && (!is(seq, *GenBank) ==> is(infoOf(seq), GenBankFields) && sameslice(s0.(GenBank).Table, featsOf(seq)) && s0.(GenBank).Fields.Accession == infoOf(seq).(GenBankFields).Accession && s0.(GenBank).Fields.Region == infoOf(seq).(GenBankFields).Region && !isnil(s0.(GenBank).Origin))
+//@   decreases ite(is(seq, GenBank), 0, 1)
